@@ -712,13 +712,13 @@ func init() {
 		p := Plan{ID: "C12", Level: "model_checking",
 			Rule: "stateless schedule search over k = 2..3 simultaneous Sync / PatchDocument / ProcessClient calls on the real service: same key, different keys, after completed requests on the same key (cached lock); " +
 				"every gate order up to the deviation bound incl. lock-lease expiry; oracle at the end of every schedule: all calls returned (no hang under virtual time), the worker survived, log invariants, " +
-				"exactly-once storage of every issued operation, clients = server rebuild = C02 reference after the closing syncs (i.e. the outcome is that of a serial order); supplementary free-running -race pass",
+				"the answers of all calls together with the stored datatype documents, operations and client documents equal those of one of the k! one-at-a-time executions of the same requests on the real service (reference executions computed once per run; not judged when a lock lease ran out or a caller gave up), exactly-once storage of every issued operation, clients = server rebuild = C02 reference after the closing syncs",
 			Assume: []string{assumeE2, assumeSched, assumeInstr}}
-		end := []string{"log", "converge", "applied", "issued", "reference", "snapshots"}
+		end := []string{"serial", "log", "converge", "applied", "issued", "reference", "snapshots"}
 		same2 := e2sched{E2: e2p{Clients: 2, Type: "counter", Prefix: "joined", Tolerant: true}, Setup: []pact{inc(0), inc(1)}, Conc: []pact{{Op: "sync", R: 0}, {Op: "sync", R: 1}}, AtEnd: end}
 		same3 := e2sched{E2: e2p{Clients: 3, Type: "counter", Prefix: "joined", Tolerant: true}, Setup: []pact{inc(0), inc(1), inc(2)}, Conc: []pact{{Op: "sync", R: 0}, {Op: "sync", R: 1}, {Op: "sync", R: 2}}, AtEnd: end}
 		diff2 := e2sched{E2: e2p{Clients: 2, Type: "counter", Keys: []string{"k1", "k2"}, Prefix: "joined", Exchange: "pack", Tolerant: true}, Setup: []pact{inc(0), {Op: "inc", R: 1, P: 1, T: "k2|"}}, Conc: []pact{{Op: "sync", R: 0}, {Op: "sync", R: 1}}, AtEnd: end}
-		fresh := e2sched{E2: e2p{Clients: 2, Type: "counter", Tolerant: true}, Conc: []pact{{Op: "opensync", R: 0, T: "k1", K: "soc"}, {Op: "opensync", R: 1, T: "k1", K: "soc"}}, AtEnd: append([]string{"onedoc"}, end...)}
+		fresh := e2sched{E2: e2p{Clients: 2, Type: "counter", Tolerant: true}, Conc: []pact{{Op: "opensync", R: 0, T: "k1", K: "soc"}, {Op: "opensync", R: 1, T: "k1", K: "soc"}}, AtEnd: append([]string{"onedoc"}, end[1:]...)} // no "serial": the datatype ids are drawn during the concurrent phase and so named by the schedule
 		// a caller gives up in the middle of its call (its context is cancelled while the handler works): one such event
 		// per execution, at every decision point at which a call is being served
 		// the other entry points next to a sync of the same key: a REST patch of an existing document, and the client
